@@ -72,13 +72,51 @@ written, minus the branch lines that carry no branch at all (for which nothing i
 theorem C05_reimported_record (c : Cov) (h : c.WF) : rtCov c = dropEmpty c := rtCov_eq c h
 
 /-- **The second export equals the first, byte for byte** – every SF, FN, FNDA, BRDA, DA line and
-every summary line (FNF, FNH, BRF, BRH, LF, LH), in the same order. (The writer model emits the
-function records in the order of the record's function list; in the code that is the iteration
-order of an `FxHashMap`, a parameter of the model: the correspondence run checks the bytes for
-reports with at most one function per file and the record sets otherwise.) -/
+every summary line (FNF, FNH, BRF, BRH, LF, LH), in the same order. (`printLcov` emits the
+function records in the order of the record's function list, whatever it is; `output_lcov` lists
+them in name order since fix 73c9152 – `Cli.outputLcov`, `C05_functions_listed_in_name_order` –
+and the correspondence run checks the bytes of the second export for every report.) -/
 theorem C05_second_export_equals_first (rs : List (Bytes × Cov)) (h : ReportOK rs) :
     printLcov (roundtrip rs) = printLcov rs :=
   printLcov_roundtrip rs fun pc hpc => ⟨(h pc hpc).1.wf, (h pc hpc).2⟩
+
+/-! ### fix 73c9152: the functions of a file are listed in name order -/
+
+/-- `output_lcov` as a function of the DATA of the records (`Cli.outputLcov`: every record walked
+in line order and, for its functions, in name order) lists the functions of every file in
+ascending byte-wise name order, each exactly once – whatever order the function table iterates in. -/
+theorem C05_functions_listed_in_name_order (c : Cov) :
+    (Cli.sortCov c).functions.Pairwise (fun a b => MainGlue.bytesLe a.1 b.1 = true) ∧
+    (Cli.sortCov c).functions.Perm c.functions :=
+  ⟨Cli.sortFns_sorted c.functions, Cli.sortFns_perm c.functions⟩
+
+/-- **The report does not depend on the iteration order of the function table**: two records that
+differ only in the order of their (distinctly named) functions are written to the same bytes –
+before the fix the same inputs gave byte-different reports from one run to the next. -/
+theorem C05_output_independent_of_table_order (pre post : List (Bytes × Cov)) (p : Bytes) (c : Cov)
+    (fs' : List (Name × Fn)) (hn : NodupKeys c.functions) (hp : c.functions.Perm fs') :
+    Cli.outputLcov (pre ++ (p, { c with functions := fs' }) :: post)
+      = Cli.outputLcov (pre ++ (p, c) :: post) := by
+  have e : Cli.sortCov { c with functions := fs' } = Cli.sortCov c := by
+    simp only [Cli.sortCov]
+    rw [Cli.sortFns_eq_of_perm hp hn]
+  simp only [Cli.outputLcov, List.map_append, List.map_cons, e]
+
+/-- what a run prints is `output_lcov` of the reported records -/
+theorem C05_cli_report_is_output_lcov (rep : List Rewrite.Rec) :
+    Cli.printReport rep = Cli.outputLcov (rep.map fun r => (r.rel, r.cov)) := by
+  simp only [Cli.printReport, Cli.printable, Cli.outputLcov, List.map_map]
+  rfl
+
+/-- a second export of a re-imported report lists the functions in the same (name) order: sorting
+is idempotent -/
+theorem C05_name_order_stable (c : Cov) : Cli.sortCov (Cli.sortCov c) = Cli.sortCov c := by
+  simp [Cli.sortCov, Cli.sortByKey_idem, Cli.sortFns_idem]
+
+/-- functions given in the order `zz`, `é`, `a`, `Z` are listed as `Z`, `a`, `zz`, `é` (byte order:
+upper case before lower case, non-ASCII last) -/
+example : (Cli.sortCov { functions := [([122, 122], ⟨1, true⟩), ([195, 169], ⟨2, false⟩), ([97], ⟨3, true⟩), ([90], ⟨4, false⟩)] }).functions.map (·.1)
+    = [[90], [97], [122, 122], [195, 169]] := by decide
 
 /-- The summary lines are reproduced: the re-imported record has the same number of functions
 (FNF), executed functions (FNH), branches (BRF), taken branches (BRH), lines (LF) and hit lines
